@@ -231,3 +231,109 @@ Example C12_regression_F10 :
     find_srs (s_id (t_srs witness_table)) (db_srs d) = Some witness_srs /\
     List.length (db_srs d) = 4%nat.
 Proof. split; [split; reflexivity|]. split; [discriminate|]. eexists. repeat split. Qed.
+
+From Texel Require Import Gpkg.WriterOps Gpkg.ProofsGenWriter.
+From Texel.Gen Require Import GpkgWriterGen.
+
+(** ** tie G2 (source tie of the writer): [TargetGeopackage.WriteFeatures] and [TargetGeopackage.writeFeatures] of
+    processing/gpkg/gpkg.go REGENERATED from source on this run (gen/GpkgWriterGen.v, translator/gpkgwriter.go) are
+    the model's [write_features] / [flush], for EVERY target (table, page size — 0 and negative included), database
+    and stream, with all outcomes ([lift_db]: [Ok d] = the connection idle on file [d]; [Err e] = the process ended
+    with that error).  The theorems above are about [write_features]; by this equality they are about what the
+    source text does.
+
+    REGENERATED, statement by statement from the AST: the receive loop ([for] with [break] = a Fixpoint on fuel
+    [S (len stream)]; a receive = taking the head of the values sent before the channel is closed), the page test
+    [len(features) % pagesize == 0] ([go_rem]: truncated remainder, [Model DivZero] for 0), [features = nil], the write
+    on close; in writeFeatures the order Begin, Prepare, per feature NewBinary / capped copy of the columns + blob /
+    Exec / skip of empty geometries / first-or-add extent accumulation with its error branch, then Close, Commit,
+    UpdateGeometryExtent, and every [if err != nil { log.Fatal.. }].  Go panics the model does not have
+    ([IndexOutOfRange], [SliceBounds] of data[0] and data[:n:n]; [OutOfFuel]; [ApiMisuse]; [FatalNoError]) are separate
+    error values of the generated code: the equality shows none of them can occur.  [append] is only accepted on a
+    slice the function owns or on [s[:n:n]] (the fix c3f647a), otherwise the translation fails.
+
+    Stays MODELLED (trusted; each call is mapped only after its exact shape was checked in the AST, the operations are
+    defined in Gpkg/WriterOps.v from the pieces of Gpkg/Model.v and are held to the library by the run-time
+    correspondence Corr/C12.v): target.handle.Begin = [op_Begin]; tx.Prepare(Table.insertSQL()) = [op_Prepare]
+    ("no such table" unless registered); gpkg.NewBinary(int32(srs id), geometry) = [op_NewBinary] (the blob stands for
+    the geometry, the srs id in its header is not modelled); stmt.Exec(data...) = [op_Exec] = the model's [insert_row]
+    on the table state of the open transaction; stmt.Close = [op_StmtClose]; tx.Commit = [op_Commit] (its error is
+    discarded by the code); target.handle.UpdateGeometryExtent = [op_UpdateGeometryExtent] = the model's [merge_extent];
+    cmp.IsEmptyGeo = [geom_empty]; geom.NewExtentFromGeometry / ext.AddGeometry = [new_extent_from_geometry] /
+    [add_geometry]; Feature.Geometry() / Columns() = [f_geom] / the attribute values; log.Fatalf / log.Fatalln(.., err) =
+    the process ends with that error; log.Println = nothing; [int] is exact Z. *)
+Theorem C12_source_tie_writer : forall tg d fs,
+  gen_WriteFeatures tg (idle d) fs = lift_db (write_features (tg_pagesize tg) (tg_Table tg) d fs) /\
+  gen_writeFeatures tg (idle d) fs = lift_db (flush (tg_Table tg) d fs).
+Proof. exact source_tie_writer. Qed.
+Print Assumptions C12_source_tie_writer.
+
+(** the regenerated code runs: the stream of 7 features above (NULLs, POLYGON EMPTY, POINT EMPTY, geometry column in
+    the middle) with page size 3 -> 3 transactions, 5 file changes, extent (-4,-15,30,40), 7 rows; page size 0 ->
+    the divide panic; an unregistered table -> "no such table"; an unknown geometry -> NewBinary's error *)
+Example C12_source_tie_writer_example :
+  (exists d0 d', create_tables empty_db [ex_table] = Ok d0 /\
+     gen_WriteFeatures (MkTarget ex_table 3) (idle d0) ex_stream = WOk (idle d') /\
+     db_txs d' = 3%N /\ db_writes d' = 5%N /\
+     option_map (fun ts => (List.length (ts_rows ts), ts_extent ts)) (find_tab "t1" (db_tabs d')) =
+       Some (7%nat, Some (MkExt (-4) (-15) 30 40))) /\
+  (forall d, gen_WriteFeatures (MkTarget ex_table 0) (idle d) ex_stream = WErr (Model DivZero)) /\
+  gen_WriteFeatures (MkTarget ex_table 3) (idle empty_db) ex_stream = WErr (Model NoSuchTable) /\
+  (exists d0, create_tables empty_db [ex_table] = Ok d0 /\
+     gen_writeFeatures (MkTarget ex_table 3) (idle d0) [MkFeature [VInt 1; VInt 7; VText 1; VReal 12] (MkGeom 0 [] 9)] =
+       WErr (Model UnknownGeometry) /\
+     gen_writeFeatures (MkTarget ex_table 3) (idle d0) [MkFeature [VInt 1] (ex_geom 0)] = WErr (Model ArgCount)).
+Proof.
+  split; [|split; [|split]].
+  - vm_compute. do 2 eexists. repeat split.
+  - intros d. reflexivity.
+  - vm_compute. reflexivity.
+  - vm_compute. eexists. repeat split.
+Qed.
+
+(** ** tie G2 (SQL texts): [Table.createSQL], [Table.selectSQL], [Table.insertSQL] REGENERATED from source on this
+    run as functions to [string] (the range loops over t.columns, the conditions [notnull == 1], [pk == 1],
+    [c.name != t.gcolumn], every literal and the order of the concatenations come from the AST) produce, for EVERY
+    table: a CREATE TABLE that declares exactly the columns of the model's description [desc_of t] ([col_sql]: name,
+    type, NOT NULL, PRIMARY KEY only for pk = 1); a SELECT of the table columns in table order (the order in which
+    ReadFeatures hands the values on); an INSERT that names [insert_columns t] = the non-geometry columns in table
+    order followed by the geometry column, with one placeholder per name.  Last clause: for a table whose column
+    names are distinct, the model's row layout [weave] (used by [insert_row] = stmt.Exec in the tie above) IS what
+    SQL's INSERT with that column list does with the values (attribute values ++ geometry): each table column gets
+    the value listed under its name; both fail exactly when the value count does not fit.
+    MODELLED: strings.Join = [String.concat]; fmt.Sprintf with one %v of a string = the text around the verb and
+    the string; the Go ints column.notnull / column.pk = [Z.b2z (c_notnull c)] / [Z.of_N (c_pk c)]; that SQLite
+    assigns the values of an INSERT by column name ([sql_insert_row], Gpkg/WriterOps.v). *)
+Theorem C12_source_tie_sql :
+  (forall t, gen_createSQL t =
+     WOk (String.append (String.append (String.append
+            (String.append "CREATE TABLE IF NOT EXISTS """ (String.append (t_name t) """")) "(")
+            (String.concat ", " (map col_sql (td_cols (desc_of t))))) ");")) /\
+  (forall t, gen_selectSQL t =
+     WOk (String.append (String.append (String.append (String.append "SELECT "
+            (String.concat "," (map c_name (t_cols t)))) " FROM """) (t_name t)) """;")) /\
+  (forall t, gen_insertSQL t =
+     WOk (String.append (String.append (String.append (String.append (String.append (String.append
+            "INSERT INTO """ (t_name t)) """(") (String.concat "," (insert_columns t))) ") VALUES(")
+            (String.concat "," (repeat "?"%string (List.length (insert_columns t))))) ")")) /\
+  (forall t attrs g, NoDup (map c_name (t_cols t)) ->
+     weave (t_cols t) (t_gcol t) attrs g =
+     sql_insert_row (t_cols t) (insert_columns t) (map CVal attrs ++ [CGeom g])).
+Proof. exact source_tie_sql. Qed.
+Print Assumptions C12_source_tie_sql.
+
+(** the regenerated text functions run on the table above (geometry column in the middle) *)
+Example C12_source_tie_sql_example :
+  gen_insertSQL ex_table = WOk "INSERT INTO ""t1""(fid,a,b,c,geom) VALUES(?,?,?,?,?)"%string /\
+  gen_selectSQL ex_table = WOk "SELECT fid,a,geom,b,c FROM ""t1"";"%string /\
+  gen_createSQL ex_table =
+    WOk "CREATE TABLE IF NOT EXISTS ""t1""(fid INTEGER NOT NULL PRIMARY KEY, a INTEGER, geom POLYGON, b TEXT, c REAL);"%string /\
+  NoDup (map c_name (t_cols ex_table)) /\
+  sql_insert_row (t_cols ex_table) (insert_columns ex_table)
+    (map CVal [VInt 1; VInt 7; VText 1; VReal 12] ++ [CGeom (ex_geom 0)]) =
+    Some [CVal (VInt 1); CVal (VInt 7); CGeom (ex_geom 0); CVal (VText 1); CVal (VReal 12)].
+Proof.
+  split; [vm_compute; reflexivity|]. split; [vm_compute; reflexivity|]. split; [vm_compute; reflexivity|].
+  split; [|vm_compute; reflexivity].
+  repeat constructor; cbn; intuition discriminate.
+Qed.
